@@ -3,13 +3,14 @@
 //! `corruptsim check C23 [--tier quick|thorough] [--seed N] [--runs N]`
 //! `corruptsim replay <file>` · `run1 <profile> <seed> <run> [tier]` · `survey <profile> <n> [seed] [tier]`
 //! `corruptsim selfcheck determinism <profile> <n> [seed]`
-//! profiles: `mix@C23` (default: 65 % whole-database runs, 35 % single-object runs), `db@C23`, `dec@C23`.
+//! profiles: `mix@C23` (default: 80 % whole-database runs, 20 % single-object runs), `db@C23`, `dec@C23`.
 
 mod dbgen;
 mod decoders;
 mod engine;
 mod faults;
 mod guard;
+mod trap;
 
 use engine::CorruptSim;
 use simcore::driver::{self, CheckSpec, Engine};
@@ -18,8 +19,8 @@ use simcore::{Tier, Violation};
 use std::collections::{BTreeMap, BTreeSet};
 use std::time::Duration;
 
-const QUICK_RUNS: u64 = 6000;
-const THOROUGH_RUNS: u64 = 60000;
+const QUICK_RUNS: u64 = 3000;
+const THOROUGH_RUNS: u64 = 30000;
 
 fn arg_value(args: &[String], flag: &str) -> Option<String> {
     args.iter().position(|a| a == flag).and_then(|i| args.get(i + 1).cloned())
@@ -59,7 +60,7 @@ fn cmd_check(args: &[String]) -> i32 {
         seed,
         runs,
         workers: workers(),
-        run_timeout: Duration::from_secs(if tier == Tier::Thorough { 60 } else { 30 }),
+        run_timeout: Duration::from_secs(if tier == Tier::Thorough { 240 } else { 150 }),
         batch_budget: Duration::from_secs(if tier == Tier::Thorough { 780 } else { 85 }),
         level: "exploration".into(),
         also_owns: vec![],
@@ -165,6 +166,51 @@ fn cmd_runcase(args: &[String]) -> i32 {
     0
 }
 
+/// `verify <dir>`: re-runs every replay file of a directory (one pool batch) and reports which
+/// recorded verdicts (same verdict, same panic site / trapped call) reproduce.
+fn cmd_verify(args: &[String]) -> i32 {
+    let dir = match args.first() {
+        Some(d) => std::path::PathBuf::from(d),
+        None => {
+            eprintln!("usage: corruptsim verify <dir>");
+            return 2;
+        }
+    };
+    let mut files: Vec<std::path::PathBuf> = std::fs::read_dir(&dir).map(|r| r.filter_map(|e| e.ok()).map(|e| e.path()).filter(|p| p.extension().map(|x| x == "json").unwrap_or(false)).collect()).unwrap_or_default();
+    files.sort();
+    let docs: Vec<serde_json::Value> = files.iter().map(|p| std::fs::read(p).ok().and_then(|b| serde_json::from_slice(&b).ok()).unwrap_or(serde_json::Value::Null)).collect();
+    let base = pool::default_scratch_base();
+    let cfg = PoolCfg { workers: workers(), timeout: Duration::from_secs(180), scratch: base.join("verify"), deadline: None };
+    let jobs: Vec<u64> = (0..docs.len() as u64).collect();
+    let res = pool::run_jobs(&cfg, &jobs, |j| driver::exec_case_inline(&CorruptSim, &docs[j as usize]["case"]));
+    pool::cleanup(&base);
+    let mut bad = 0;
+    for (j, st) in res {
+        let d = &docs[j as usize];
+        let verdict = d["expect"]["verdict"].as_str().unwrap_or("");
+        let site = d["expect"]["signature"]["site"].as_str();
+        let wher = d["expect"]["signature"]["where"].as_str();
+        let ok = match &st {
+            JobStatus::Done(o) => o.violations.iter().any(|v| v.verdict == verdict && v.sig.get("site").map(|s| s.as_str()) == site && (site.is_some() || v.sig.get("where").map(|s| s.as_str()) == wher)),
+            _ => false,
+        };
+        if !ok {
+            bad += 1;
+            let got = match &st {
+                JobStatus::Done(o) => format!("{:?} {:?}", o.violations.iter().map(|v| v.sig_string()).collect::<Vec<_>>(), o.harness_error),
+                other => format!("{:?}", other).chars().take(200).collect(),
+            };
+            println!("NOT REPRODUCED {} (expected {} {:?}{:?}) got {}", files[j as usize].display(), verdict, site, wher, got.chars().take(300).collect::<String>());
+        }
+    }
+    println!("verify: {} replay files, {} not reproduced", docs.len(), bad);
+    if bad > 0 {
+        1
+    } else {
+        0
+    }
+}
+
 fn cmd_selfcheck(args: &[String]) -> i32 {
     if args.len() < 3 || args[0] != "determinism" {
         eprintln!("usage: corruptsim selfcheck determinism <profile> <n> [seed]");
@@ -251,7 +297,7 @@ fn minimise_site(v: &Violation, base: &std::path::Path, budget: usize) -> (Viola
             execs += chunk.len();
             for (_, st) in res {
                 if let JobStatus::Done(o) = st {
-                    if let Some(nv) = o.violations.into_iter().find(|x| x.sig.get("site") == v.sig.get("site")) {
+                    if let Some(nv) = o.violations.into_iter().find(|x| x.verdict == v.verdict && x.sig.get("site") == v.sig.get("site") && (v.verdict == "panic" || x.sig.get("where") == v.sig.get("where"))) {
                         cur = nv;
                         continue 'outer;
                     }
@@ -277,8 +323,10 @@ fn cmd_survey(args: &[String]) -> i32 {
     let tier = Tier::parse(pos.get(1).map(|s| s.as_str()).unwrap_or("quick"));
     let min_budget: usize = arg_value(args, "--min").and_then(|s| s.parse().ok()).unwrap_or(120);
     let out_dir = arg_value(args, "--out");
+    let json_out = arg_value(args, "--json");
+    let mut json_sites: Vec<serde_json::Value> = vec![];
     let base = pool::default_scratch_base();
-    let cfg = PoolCfg { workers: workers(), timeout: Duration::from_secs(30), scratch: base.join("survey"), deadline: None };
+    let cfg = PoolCfg { workers: workers(), timeout: Duration::from_secs(120), scratch: base.join("survey"), deadline: None };
     let jobs: Vec<u64> = (0..n).collect();
     let t0 = std::time::Instant::now();
     let res = pool::run_jobs(&cfg, &jobs, |j| CorruptSim.run_seeded(&profile, seed, j, tier));
@@ -301,7 +349,11 @@ fn cmd_survey(args: &[String]) -> i32 {
                 }
                 let mut seen = BTreeSet::new();
                 for v in o.violations {
-                    let site = v.sig.get("site").cloned().unwrap_or_default();
+                    // panics are keyed by their site; trapped hang / abort / signal by verdict + call
+                    let site = match v.sig.get("site") {
+                        Some(s) => s.clone(),
+                        None => format!("<{}> {} @ {}", v.verdict, v.sig.get("phase").cloned().unwrap_or_default(), v.sig.get("where").cloned().unwrap_or_default()),
+                    };
                     let e = sites.entry(site.clone()).or_insert(SiteStat { runs: 0, phases: BTreeMap::new(), kinds: BTreeMap::new(), roles: BTreeMap::new(), msg: String::new(), best: None });
                     if seen.insert(site) {
                         e.runs += 1;
@@ -356,11 +408,18 @@ fn cmd_survey(args: &[String]) -> i32 {
             let (mv, execs) = if min_budget > 0 { minimise_site(&v, &base, min_budget) } else { (v, 0) };
             let summary = summarise_case(&mv.case);
             println!("        minimal (from run {}, {} minimisation runs): {}", j, execs, summary);
+            json_sites.push(serde_json::json!({
+                "site": site, "runs": s.runs, "phases": s.phases, "faults": s.kinds, "roles": s.roles, "message": s.msg,
+                "verdict": mv.verdict, "sig": mv.sig, "minimal_summary": summary, "from_run": j, "seed": seed, "profile": profile,
+            }));
             if let Some(d) = &out_dir {
                 let path = driver::write_replay(std::path::Path::new(d), "corruptsim", &mv);
                 println!("        replay file: {}", path.display());
             }
         }
+    }
+    if let Some(p) = json_out {
+        let _ = std::fs::write(&p, serde_json::to_vec_pretty(&json_sites).unwrap_or_default());
     }
     pool::cleanup(&base);
     0
@@ -396,12 +455,23 @@ fn main() {
     let args: Vec<String> = std::env::args().collect();
     simcore::noaslr::ensure();
     simdisk::plug_hash_order();
+    // Panics raised inside std (no #[track_caller] chain into TurDB) are attributed to the innermost
+    // TurDB frame by symbolising a backtrace in the child's panic hook. Parsing this binary's debug
+    // info takes seconds; doing it once here lets every forked child inherit the parsed tables.
+    if matches!(args.get(1).map(|s| s.as_str()), Some("check" | "replay" | "run1" | "survey" | "selfcheck" | "runcase" | "verify")) {
+        let t = std::time::Instant::now();
+        let warm = std::backtrace::Backtrace::force_capture().to_string();
+        if std::env::var_os("VSIM_DEBUG").is_some() {
+            eprintln!("symboliser warm-up: {} bytes in {:?}", warm.len(), t.elapsed());
+        }
+    }
     let code = match args.get(1).map(|s| s.as_str()) {
         Some("check") => cmd_check(&args[2..]),
         Some("replay") => cmd_replay(&args[2..]),
         Some("run1") => cmd_run1(&args[2..]),
         Some("selfcheck") => cmd_selfcheck(&args[2..]),
         Some("survey") => cmd_survey(&args[2..]),
+        Some("verify") => cmd_verify(&args[2..]),
         Some("gencase") => cmd_gencase(&args[2..]),
         Some("runcase") => cmd_runcase(&args[2..]),
         Some("list") => {
